@@ -721,6 +721,12 @@ class DAGRunConcurrentManager(DAGRunManagerLike):
                 dag=dag,
             )
 
+            if not is_first_request:
+                # The request that executes the node stores its result (and starts a recurrent subgraph). A late
+                # duplicate request only waited for it: what it read meanwhile may already be hidden by the next
+                # recurrent iteration and must not overwrite the result.
+                return
+
             if isinstance(result, Recurrent):
                 self._create_task(
                     name=f'rec-{node_id}',
